@@ -81,7 +81,19 @@ func cMessage(name string, fields ...*cField) *VStruct {
 		fl.Elems = append(fl.Elems, f.val())
 	}
 	desc := cstruct("MessageDesc", map[string]Val{"Name()": constStr(name), "FullName()": constStr("pkg." + name), "IsMapEntry()": VBool{}})
-	return cstruct("Message", map[string]Val{"Fields": fl, "Oneofs": VList{Key: "oneofs", Elems: []Val{}}, "Messages": VList{Key: "msgs", Elems: []Val{}}, "Enums": VList{Key: "enums", Elems: []Val{}}, "Desc": desc,
+	// protogen: a proto3 `optional` field is the only member of a synthetic oneof, listed in Message.Oneofs
+	ofs := VList{Key: "oneofs", Elems: []Val{}}
+	for _, f := range fields {
+		if f.Opt && !f.List && !f.Map {
+			if _, has := f.val().Fields["Oneof"].(*VStruct); !has {
+				o := cstruct("Oneof", map[string]Val{"Desc": cstruct("OneofDesc", map[string]Val{"Name()": constStr("_" + f.Name), "IsSynthetic()": VBool{B: true}}), "GoName": constStr("X_" + strings.Title(snakeToCamelJSON(f.Name))),
+					"Fields": VList{Key: "ofields", Elems: []Val{f.val()}}})
+				f.val().Fields["Oneof"] = o
+				ofs.Elems = append(ofs.Elems, o)
+			}
+		}
+	}
+	return cstruct("Message", map[string]Val{"Fields": fl, "Oneofs": ofs, "Messages": VList{Key: "msgs", Elems: []Val{}}, "Enums": VList{Key: "enums", Elems: []Val{}}, "Desc": desc,
 		"GoIdent": cstruct("GoIdent", map[string]Val{"GoName": constStr(name)}), "Comments": cstruct("CommentSet", map[string]Val{"Leading": constStr("")})})
 }
 
